@@ -272,7 +272,9 @@ func dedupe(in []finding) []finding {
 // differences are reported by diffStates; this adds the trail-only ones.
 func frameTrails(o op, v string, pre, want, got mState) []finding {
 	var out []finding
-	stripObj := func(x mObj) string { return canonObj(normalise(mState{{Objects: []mObj{x}}}, normOpts{})[0].Objects[0]) }
+	stripObj := func(x mObj) string {
+		return canonObj(normalise(mState{{Objects: []mObj{x}}}, normOpts{})[0].Objects[0])
+	}
 	for i, w := range want {
 		if i >= len(got) || i >= len(pre) || got[i].Package != w.Package || pre[i].Package != w.Package {
 			continue
